@@ -6,7 +6,16 @@ RULE = ("one Kani harness per (node kind, ordered pair of non-None operand tags)
 
 
 def check(run, only=None):
-    arms, hs = cells.run_cells(run, "c03", only=only)
+    from . import c05
+
+    def lazy_eq(run, arms):
+        # equality between values of different types is false (values that would coincide after coercion): decided on the real equality helper with the eval_rec oracle (see C05)
+        hs = [h for h in c05.gen(run, run.tier) if (lambda h: h.name.startswith(('eq_', 'neq_')) and any(x in h.name for x in ('str1', 'dec', 'float')))(h)]
+        for h in hs:
+            h.spec = cells.Spec("", quick=True)
+            h.variant, h.tags = "Equals", ("lazy",)
+        return hs
+    arms, hs = cells.run_cells(run, "c03", only=only, extra=lazy_eq, extra_preamble=c05.PREAMBLE)
     run.assumptions += cells.COMMON_ASSUMPTIONS
     run.outside_claim += cells.OUTSIDE
     return run.finish(rule=RULE)
